@@ -5,6 +5,8 @@ package main
 // count("f"), lastNil("f"), lastArg("f", i), and constrain with `at-call f requires <expr>` clauses.
 
 import (
+	"go/constant"
+	"os"
 	"sort"
 	"regexp"
 	"fmt"
@@ -69,6 +71,9 @@ func (ex *Exec) havocGhostBody(p *Path, body ast.Node) {
 	evs := map[string]bool{}
 	tmp := &FuncInfo{Obj: ex.fi.Obj, Decl: &ast.FuncDecl{Body: &ast.BlockStmt{List: []ast.Stmt{&ast.ExprStmt{X: &ast.FuncLit{Type: &ast.FuncType{}, Body: bodyBlock(body)}}}}}, Pkg: ex.curPkgInfo()}
 	ex.reachableEvents(tmp, map[string]bool{}, evs)
+	if os.Getenv("GOVC_DEBUG_LOOPS") != "" {
+		fmt.Fprintln(os.Stderr, "LOOP-EVENTS", ex.funcKey, evs)
+	}
 	if len(evs) == 0 {
 		return
 	}
@@ -474,13 +479,21 @@ func (ex *Exec) reachableEvents(fi *FuncInfo, seen map[string]bool, out map[stri
 			ex.traceEvents, ex.contractMode = saveT, saveCM
 			if isEv {
 				out[name] = true
+				if strings.HasPrefix(name, "P:") {
+					// one print call raises every text event whose fragment it contains
+					for _, n := range ex.textEventNames(call) {
+						out[n] = true
+					}
+				}
 			}
-			if ex.emittedPkg(fn) {
+			if ex.emittedPkg(fn) || ex.w.IsRepoFunc(fn) {
+				// (repository helpers too: a helper that prints is inlined or havocked at the call, and either way the events
+				// it raises are events of the loop body / callee that is being summarised)
 				f2 := fn
 				if fn.Origin() != nil {
 					f2 = fn.Origin()
 				}
-				if callee := ex.w.Funcs[f2.FullName()]; callee != nil && callee.Decl.Body != nil {
+				if callee := ex.w.Funcs[f2.FullName()]; callee != nil && callee.Decl != nil && callee.Decl.Body != nil {
 					ex.reachableEvents(callee, seen, out)
 				}
 			}
@@ -491,6 +504,22 @@ func (ex *Exec) reachableEvents(fi *FuncInfo, seen map[string]bool, out map[stri
 		case *ast.Ident:
 			if tv, ok := info.Types[call.Fun]; ok && !tv.IsType() && !tv.IsBuiltin() {
 				out[f.Name] = true
+				if f.Name == "p" && len(ex.pfEvents) > 0 && len(call.Args) > 0 {
+					// printf-style printer: also the text events of its literal format (as at the call itself, calls.go)
+					if tvf, ok := info.Types[call.Args[0]]; ok && tvf.Value != nil && tvf.Value.Kind() == constant.String {
+						format := constant.StringVal(tvf.Value)
+						for _, want := range ex.pfEvents {
+							if strings.Contains(format, want) {
+								out["p:"+want] = true
+							}
+						}
+					} else {
+						// a format that is not a constant: any of the printer's text events may be raised
+						for _, want := range ex.pfEvents {
+							out["p:"+want] = true
+						}
+					}
+				}
 			}
 		case *ast.SelectorExpr:
 			if tv, ok := info.Types[call.Fun]; ok && !tv.IsType() {
